@@ -346,6 +346,64 @@ def rule_r4(rep, program: Program):
     return r
 
 
+def rule_r5(rep, program: Program):
+    """Rows that are not reached keep their declared fill value: every allocator of an output array
+    fills the whole array with the value it is handed, on every path, whatever the dtype."""
+    r = rep.rule("R5", "memory-mapped output arrays are filled with the declared default on every path before they are returned (rows an interrupted run does not reach read as the fill value, as in-memory arrays from np.full do)", floor=2)
+    f = program.func("samplers", "_open_new_memmap")
+    if f is None:
+        raise AnalysisError("samplers._open_new_memmap not found")
+    fill = next((p for p in f.params if "default" in p or "fill" in p or p in ("val", "value")), None)
+    if fill is None:
+        raise AnalysisError("_open_new_memmap: fill-value parameter not found")
+    cfg = CFG(f.node)
+
+    def is_fill(n):
+        a = n.ast
+        if isinstance(a, ast.Assign) and len(a.targets) == 1 and isinstance(a.targets[0], ast.Subscript) and norm(a.targets[0].slice) in (":", "...", "Ellipsis") and norm(a.value) == fill:
+            return True
+        if isinstance(a, ast.Expr) and isinstance(a.value, ast.Call) and isinstance(a.value.func, ast.Attribute) and a.value.func.attr == "fill" and a.value.args and norm(a.value.args[0]) == fill:
+            return True
+        return False
+
+    fills = [n for n in cfg.nodes if n.ast is not None and is_fill(n)]
+    r.inst({"allocator": f.qualname, "fill statements": [norm(n.ast)[:50] for n in fills]})
+    seen, stack, leak = set(), [cfg.entry], None
+    while stack:
+        n = stack.pop()
+        if n in seen:
+            continue
+        seen.add(n)
+        for m, _lab in n.succ:
+            if m is cfg.exit_return:
+                leak = n
+            elif m is cfg.exit_raise or is_fill(m):
+                continue
+            else:
+                stack.append(m)
+    if leak is not None:
+        conds = [norm(t.ast)[:60] for t in cfg.nodes if t.kind == "test" and t.ast is not None]
+        r.violate(PROP, "_open_new_memmap:fill-not-on-every-path", f"_open_new_memmap can return the new array without `[:] = {fill}` having run (tests on the way: {conds}): a freshly created file is zero-filled, so statistics whose declared default is not 0 (n_step, tree_depth: -1) read 0 in the rows an interrupted run never reaches, unlike the in-memory arrays", node=leak.ast or f.node, file=f.file)
+    # the in-memory siblings use np.full(shape, <same value>, dtype)
+    n_full = 0
+    for name in ("_init_stats", "_init_traces"):
+        g = program.func("samplers", name)
+        if g is None:
+            raise AnalysisError(f"samplers.{name} not found")
+        mm = [c for c in ast.walk(g.node) if isinstance(c, ast.Call) and norm(c.func) == "_open_new_memmap"]
+        full = [c for c in ast.walk(g.node) if isinstance(c, ast.Call) and norm(c.func) in ("np.full", "numpy.full")]
+        if not mm or not full:
+            raise AnalysisError(f"{name}: allocation siblings (np.full / _open_new_memmap) not found")
+        def arg(c, i, kw):
+            return norm(c.args[i]) if len(c.args) > i else next((norm(k.value) for k in c.keywords if k.arg == kw), None)
+        mv, fv = arg(mm[0], 2, "default_val"), arg(full[0], 1, "fill_value")
+        n_full += 1
+        r.inst({"function": name, "memmap fill": mv, "in-memory fill": fv})
+        if mv != fv:
+            r.violate(PROP, f"{name}:fill-siblings:{mv}!={fv}", f"{name} fills memory-mapped arrays with `{mv}` but in-memory arrays with `{fv}`", node=mm[0], file=g.file)
+    return r
+
+
 def run(rep, program: Program, tier: str) -> None:
     rep.explanation = (
         "Handler-chain analysis from the iteration body to the public return: try/except/finally "
@@ -359,3 +417,4 @@ def run(rep, program: Program, tier: str) -> None:
     rep.isolate(rule_r2, rep, program, et)
     rep.isolate(rule_r3, rep, program)
     rep.isolate(rule_r4, rep, program)
+    rep.isolate(rule_r5, rep, program)
